@@ -303,9 +303,31 @@ def run_faults(ctx, exe):
         else:
             ctx.traces_validated += 1
     ctx.ties.append({"name": "cpq-faultapi", "cases": len(lines), "disagreements": bad})
+    # real threads: the aggregator hands operations of one thread to another thread's handler
+    nm = ctx.scale(10, 120)
+    mbad = 0
+    for r in range(nm):
+        args = ["mt", [2, 3, 4, 8][r % 4], ctx.seed * 1000 + r, 4000]
+        rc, lines2, err = ctx.run_driver(exe, args, timeout=300)
+        ctx.count(("cpq-mt", r), True, "cpq-mt T=%d" % args[1])
+        t = (lines2 or ["no output"])[-1].split()
+        if rc != 0 or len(t) < 8 or t[1::2] != ["0", "0", "0", "0"]:
+            mbad += 1
+            ctx.add(Finding("violation", "cpq-mt", "concurrent_priority_queue, %d threads x 4000 push / try_pop with slow-copy elements, one in 16 throwing when copied (seed %d): %s rc=%s "
+                            "(LATE = an element was read by the handler after its push() had returned; EXC = a throwing push returned normally or a good one threw; CONS = popped + left != pushed; ORDER = final drain not in priority order)" % (
+                                args[1], args[2], " ".join(t), rc), {"tie": "cpq-mt", "args": args}))
+            break
+    ctx.rules.append("cpq-mt (oracle only): 2-8 real threads x 4000 push(copy) / push(move) / try_pop on a queue with spare capacity, elements with a slow copy constructor, one in 16 throwing: "
+                     "no element is read after its push returned, exceptions reach exactly the throwing pushes' callers, popped + left = pushed, the final drain is in priority order")
+    ctx.ties.append({"name": "cpq-mt (oracle only)", "cases": nm, "disagreements": mbad})
 
 
 def replay(ctx, rep):
+    if rep.get("tie") == "cpq-mt":
+        lib, err = ctx.build_lib("tbb")
+        exe, err = ctx.build_driver("drv_cpq", libs=[lib])
+        print(ctx.run_driver(exe, rep["args"], timeout=300))
+        return
     if rep.get("tie", "").startswith("cpq-fault"):
         lib, err = ctx.build_lib("tbb")
         exe, err = ctx.build_driver("drv_cpq", libs=[lib])
